@@ -243,8 +243,39 @@ def model_lits(d):
     return [v if d[v] else -v for v in sorted(d)]
 
 
-def run_impl(case, timeout=5):
+def build_call(case):
+    """The objects handed to solve_sat: container forms (I) and aliased clause objects (A) as described by case['shape'].
+    Returns (clauses object, assumptions object, inner lists or None, assumption list or None) - the last two for the
+    'caller's input is not modified' comparison."""
+    shape = case.get("shape") or {}
+    inner = [list(c) for c in case["clauses"]]
+    for g in shape.get("alias") or []:
+        g = [i for i in g if i < len(inner)]
+        for i in g[1:]:
+            if inner[i] == inner[g[0]]:
+                inner[i] = inner[g[0]]  # the same list object at several positions
+    outer_kind, inner_kind = shape.get("cform", "list-list").split("-")
+    conv = {"list": lambda c: c, "tuple": tuple, "gen": lambda c: (l for l in c)}[inner_kind]
+    objs = [conv(c) for c in inner]
+    cl_obj = objs if outer_kind == "list" else tuple(objs) if outer_kind == "tuple" else (c for c in objs)
+    asm = list(case["assumptions"])
+    aform = shape.get("aform", "list")
+    if aform == "list":
+        a_obj = asm or None
+    else:
+        a_obj = {"tuple": tuple, "set": set, "gen": lambda a: (x for x in a), "iter": iter, "map": lambda a: map(int, a)}[aform](asm)
+    return cl_obj, a_obj, (inner if inner_kind == "list" else None), (asm if aform == "list" else None)
+
+
+def outside_signature(case):
+    """container forms the type hints (Sequence[Sequence[int]], Sequence[int] | None) do not admit: a TypeError is acceptable there"""
+    shape = case.get("shape") or {}
+    return shape.get("cform", "list-list") in ("list-gen", "gen-list", "gen-tuple") or shape.get("aform", "list") in ("set", "gen", "iter", "map")
+
+
+def run_impl(case, timeout=5, clauses_obj=None, assumptions_obj=None):
     """Run solve_sat under the hook and the time guard.  Module-level (used with pmap)."""
+    import copy
     import time
 
     import solvor.sat as S
@@ -253,11 +284,20 @@ def run_impl(case, timeout=5):
     kw = dict(case["kw"])
     t0 = time.time()
     timeout = max(timeout, case.get("timeout", 0))
-    res = guarded(S.solve_sat, [list(c) for c in case["clauses"]], assumptions=list(case["assumptions"]) or None, timeout=timeout, **kw)
+    if clauses_obj is not None:
+        cl_obj, a_obj, inner, asm = clauses_obj, assumptions_obj, None, None
+    else:
+        cl_obj, a_obj, inner, asm = build_call(case)
+    snap = (copy.deepcopy(inner), list(asm) if asm is not None else None)
+    res = guarded(S.solve_sat, cl_obj, assumptions=a_obj, timeout=timeout, **kw)
     dt = time.time() - t0
     trace = S._VERIF_TRACE or []
     S._VERIF_TRACE = None
     out = {"outcome": res[0], "time": round(dt, 3)}
+    if inner is not None and inner != snap[0]:
+        out["input_modified"] = f"clause lists {snap[0]} became {inner}"[:400]
+    elif asm is not None and asm != snap[1]:
+        out["input_modified"] = f"assumption list {snap[1]} became {asm}"
     if res[0] == "ok":
         r = res[1]
         out["status"] = getattr(r.status, "name", str(r.status))
@@ -463,8 +503,15 @@ def c_result(out):
     return f"(mkResult {out['status']} {sol} {cz(int(obj))} {sols})"
 
 
+def seen_assumptions(case):
+    """the assumption list as solve_sat sees it after list(assumptions): a set iterates in its own order, without repeats"""
+    if (case.get("shape") or {}).get("aform") == "set":
+        return list(set(case["assumptions"]))
+    return list(case["assumptions"])
+
+
 def c_input(case):
-    return f"({clist(case['clauses'], lambda c: clist(c, cz))}, {clist(case['assumptions'], cz)}, {cz(case['kw']['solution_limit'])})"
+    return f"({clist(case['clauses'], lambda c: clist(c, cz))}, {clist(seen_assumptions(case), cz)}, {cz(case['kw']['solution_limit'])})"
 
 
 def c_case(case, out):
@@ -546,6 +593,10 @@ def run_engine(ctx: Ctx, pid: str):
     cases = [c for c in load_corpus(pid) + fixed_cases(ctx.rng, big) if valid_input(c)]
     n_rand = ctx.budget(600, 6000)
     rand_cases = [c for c in (gen_case(ctx.rng, big) for _ in range(n_rand)) if valid_input(c)]
+    from harness.props import sat_shapes as SH  # round-2 hardening: container forms, aliased clause objects, option corners
+
+    rand_cases += [SH.gen_shape_case(ctx.rng, big) for _ in range(ctx.budget(600, 4000))]
+    rand_cases += SH.corner_cases(ctx.rng, ctx.budget(80, 600))
 
     # pinned quirks outside valid_input: observed, counted, never judged
     for qc, (exp_outcome, exp_detail) in QUIRKS:
@@ -606,22 +657,38 @@ def run_engine(ctx: Ctx, pid: str):
         else:
             if learns >= 1:
                 ctx.nontriv(canon(case))
+        shape = case.get("shape") or {}
+        if shape:
+            ctx.count("shape_clauses", "aliased-objects" if shape.get("alias") else shape.get("cform", "list-list"))
+            ctx.count("shape_assumptions", shape.get("aform", "list" if asm else "None"))
+        if out["outcome"] == "exc" and out["exc"][0] == "TypeError" and outside_signature(case):
+            ctx.count("shape_outside_signature", "TypeError(accepted)")
+            continue
         bad = judge(case, out, truth, known_unsat)
+        if not bad and pid == "C02" and out.get("input_modified"):
+            bad = "modified the caller's input: " + out["input_modified"]
         if bad:
             if first_bad is None:
                 first_bad = (case, out, bad)
 
                 def fails(t):
-                    return bool(judge(t, run_impl(t, 2), Truth(t["clauses"], t["assumptions"]), False))
+                    o = run_impl(t, 2)
+                    return bool(judge(t, o, Truth(t["clauses"], t["assumptions"]), False) or (pid == "C02" and o.get("input_modified")))
 
                 small = shrink(case, fails) if len(cl) <= 300 else case
+                if (small.get("shape") or {}).get("alias"):  # drop alias groups that no longer name equal clauses
+                    k = small["clauses"]
+                    small["shape"]["alias"] = [g for g in ([i for i in g0 if i < len(k)] for g0 in small["shape"]["alias"])
+                                               if len(g) >= 2 and all(k[i] == k[g[0]] for i in g)]
                 o2 = run_impl(small)
-                bad2 = judge(small, o2, Truth(small["clauses"], small["assumptions"]), False) or bad
-                ctx.violation(f"solve_sat {bad2}", {"clauses": small["clauses"], "assumptions": small["assumptions"], "kw": small["kw"],
+                bad2 = (judge(small, o2, Truth(small["clauses"], small["assumptions"]), False)
+                        or (pid == "C02" and o2.get("input_modified") and "modified the caller's input: " + o2["input_modified"]) or bad)
+                ctx.violation(f"solve_sat {bad2}" + (f" [input shape {small['shape']}]" if small.get("shape") else ""),
+                              {"clauses": small["clauses"], "assumptions": small["assumptions"], "kw": small["kw"], "shape": small.get("shape"),
                                                      "observed": {k: o2.get(k) for k in ("outcome", "status", "solution", "solutions", "exc")},
                                                      "original_input": {"clauses": cl, "assumptions": asm, "kw": case["kw"]}})
             else:
-                ctx.violation(f"solve_sat {bad}", {"clauses": cl, "assumptions": asm, "kw": case["kw"],
+                ctx.violation(f"solve_sat {bad}", {"clauses": cl, "assumptions": asm, "kw": case["kw"], "shape": case.get("shape"),
                                                    "observed": {k: out.get(k) for k in ("outcome", "status", "solution", "solutions", "exc")}})
         ctx.sample({"clauses": cl[:6], "n_clauses": len(cl), "assumptions": asm, "kw": case["kw"], "status": out.get("status"),
                     "learned": learns, "models": nsol}, 3)
@@ -675,7 +742,7 @@ def run_engine(ctx: Ctx, pid: str):
     for i in failing:
         case, out = coq_meta[i]
         txt = ctx.coq_eval(f"reject_{i}", IMPORTS,
-                           f"first_reject {flag} {clist(case['clauses'], lambda c: clist(c, cz))} {clist(case['assumptions'], cz)} "
+                           f"first_reject {flag} {clist(case['clauses'], lambda c: clist(c, cz))} {clist(seen_assumptions(case), cz)} "
                            f"{cz(case['kw']['solution_limit'])} {clist(out['trace'], c_event)}")
         m = re.search(r"Some\s+(\d+)", txt)
         idx = int(m.group(1)) if m else None
@@ -837,7 +904,13 @@ def replay_common(obj, pid):
     if "clauses" not in obj:
         print("replay names an unchecked obligation:", obj.get("unchecked") or obj.get("what"))
         return 1
-    case = mk(obj["clauses"], obj.get("assumptions", []), "replay", **obj.get("kw", {}))
+    kw = dict(obj.get("kw", {}))
+    if obj.get("timeout"):
+        kw["timeout"] = obj["timeout"]
+    case = mk(obj["clauses"], obj.get("assumptions", []), "replay", **kw)
+    if obj.get("shape"):
+        case["shape"] = obj["shape"]
+        print("input shape:", obj["shape"])
     out = run_impl(case)
     truth = Truth(case["clauses"], case["assumptions"])
     print("input:", {k: case[k] for k in ("clauses", "assumptions", "kw")})
@@ -860,6 +933,11 @@ NOTES = [
     "solve_sat([[]]) returns OPTIMAL {} (pinned by a repository test) and an assumption on a larger variable raises IndexError; both "
     "are observed and counted (histogram quirk_outside_valid_input), not judged",
     "completeness of the search and termination are explored (truth-table oracle, 5 s guard), not proved",
+    "round-2 hardening (HARDENING.md): container forms (list/tuple/generator, assumptions also set/iterator/map; a TypeError is accepted "
+    "only for forms outside the Sequence hints), aliased clause objects, option corners at 0/1/default+-1 run through the same oracle and "
+    "kernel replay; heavy instances (independent blocks, guarded pigeonhole, sparse indices up to 100000, >64/>1024/>2048 variables, noisy "
+    "planted 3-SAT) are judged by construction with direct evaluation of every returned assignment against all clauses and totality over "
+    "1..n_vars, kernel replay skipped and counted; call sequences (same object twice, two option sets in both orders) must agree",
 ]
 NOTES_C01 = ["oracle: direct evaluation of every returned assignment + truth table over occurring variables (<= 20)"]
 NOTES_C02 = [
